@@ -18,7 +18,7 @@ CONFIGS = {
     "C11": {"quick": [("AllocMC_count2.cfg", "edges")],
             "thorough": [("AllocMC_count.cfg", "model"), ("AllocMC_count2.cfg", "edges"), ("AllocMC_count_sim.cfg", "sim")]},
 }
-SIM = {"num": 4000, "depth": 40}
+SIM = {"num": 10000, "depth": 40}
 
 SAMPLE = {"quick": 60000, "thorough": None}
 
